@@ -5,7 +5,7 @@ import os
 from jugverif import core, graphcheck as G, genprog, jugenv
 
 LEVEL = 'proof'
-THEOREMS = ['Jug.C09.cli_eq_spec', 'Jug.C09.aff_sound', 'Jug.C09.aff_complete', 'Jug.C09.shell_union_eq_cli', 'Jug.C09.store_after', 'Jug.C09.invalidate_keeps_closed']
+THEOREMS = ['Jug.C09.cli_eq_spec', 'Jug.C09.aff_sound', 'Jug.C09.aff_complete', 'Jug.C09.shell_union_eq_cli', 'Jug.C09.shellLoop_spec', 'Jug.C09.shell_eq_spec', 'Jug.C09.shell_in_range', 'Jug.C09.shell_terminates', 'Jug.C09.shell_total', 'Jug.C09.store_after', 'Jug.C09.invalidate_keeps_closed']
 
 
 def matching(P, target):
@@ -21,7 +21,7 @@ def check(run):
                 'task that really reads an invalidated result is gone, nothing outside the reported closure is touched); then a real execute must re-run exactly the removed tasks and restore the sequential values; '
                 'non-trivial = the target has dependents and non-dependents with stored results; distinct by (program, target, state, backend)')
     run.assumptions = ['dependencies: lower bound = results a task really reads (cache-free sequential run), upper bound = what Task.dependencies() reports (jug may invalidate conservatively, e.g. a slice of a mapped sequence with all its blocks)',
-                       'the shell variant is modelled by its specification (closure from one task); its worklist algorithm is tied to the model by the sampled correspondence only']
+                       'the shell work list is modelled as coded (shellLoop: reverse-edge table, pop from the end, seen set) and proved totally correct (shell_total); hashes are modelled as task indices (equal-hash duplicates of a task are one task)']
     run.trusted = ['Lean 4.33.0 kernel', 'axioms propext, Quot.sound', 'harness/jugverif/graphcheck.py']
     run.lean(['JugModel.Props.C09', 'jugdrv'], theorems_expected=THEOREMS)
     drv = core.Driver() if run.driver_ok else None
@@ -77,7 +77,13 @@ def check(run):
                     if drv is not None:
                         ans = drv.ask({'op': 'graph', 'n': n, 'deps': [inf['reported'] for inf in P['info']], 'hit': hit, 'res': [i in present for i in range(n)], 'locks': ['free'] * n, 'prev': ['unknown'] * n})
                         run.corr_programs += 1
-                        if set(ans['aff']) & present != removed:
+                        if variant == 'shell':
+                            if ans.get('shell') is None or set(ans['shell']) != set(ans['aff']):
+                                run.corr_disagreements += 1
+                                run.obligation('model: work list of the shell = closure (fuel n*n+n+2 suffices)', False, 'shell %s aff %s' % (ans.get('shell'), ans['aff']))
+                            run.count('shell_worklist_runs')
+                        model_removed = set(ans['shell'] if variant == 'shell' and ans.get('shell') is not None else ans['aff']) & present
+                        if model_removed != removed:
                             run.corr_disagreements += 1
                             run.obligation('correspondence invalidate model=code (%s)' % variant, False, 'model removes %s, code removed %s; %s' % (sorted(set(ans['aff']) & present), sorted(removed), json.dumps(rp)[:300]))
                     # re-execute: exactly the tasks without result run, values restored
